@@ -4,9 +4,10 @@ CONSTANTS
   MaxProd = 2  MaxTables = 1  MaxDepth = 2
   OpenKinds = {"Device", "ThermalZone", "Processor", "PowerRes"}  DeclKindsOn = {"Name", "OpRegion", "Mutex", "Event"}
   Forms = {"abs"}
+  FieldKinds = {"Field"}
   ScopeOn = FALSE  FieldOn = TRUE  MethodFlags = {}  StmtKinds = {}  MaxStmts = 0
-  Widths = {1, 2, 3, 4}
-  Excluded = {"D1", "D1b", "D2", "D2c", "D3", "D5", "D7", "D8", "D9"}
+  Widths = {1, 4}
+  Excluded = {"D1", "D1b", "D2", "D2c", "D3", "D5", "D7", "D8", "D9", "D10", "D11"}
   Emit = TRUE  Bug = ""
 INIT Init
 NEXT Next
